@@ -55,7 +55,7 @@ var Locs = []string{
 	"global", "math.attr", "math.new", "sys.path.append", "sys.path.rebind", "sys.argv.inplace", "sys.argv.rebind",
 	"builtins.new", "builtins.len", "srcmod.val", "srcmod.list", "srcmod.dict", "class.attr", "func.default",
 	"type.int", "type.list", "type.exc", "os.environ", "string.attr", "time.attr", "sys.new", "print.capture", "nested.cfg",
-	"const.bytes", "exc.syntax",
+	"const.bytes", "exc.syntax", "modimpl.conf",
 }
 
 // BadSources fail in the compiler proper (after parsing), each at its own line.
@@ -76,6 +76,9 @@ func writeStmt(loc string, v int) string {
 		// a SyntaxError kept by the program and inspected later: the instance
 		// (with the file name and line it carries) belongs to this compilation
 		return fmt.Sprintf("try:\n    compile(%q, \"f%d\" + CT + \".py\", \"exec\")\n    held = None\nexcept SyntaxError as _se:\n    held = _se", BadSources[v%len(BadSources)], v)
+	case "modimpl.conf":
+		// a module the embedder initialised from source, per context
+		return "import ctxconf\nctxconf.note = " + val
 	case "const.bytes":
 		// an in-place operator applied to a value that starts out as a constant of
 		// the (possibly shared) code object
@@ -181,6 +184,8 @@ func readExpr(loc string) (prelude, expr string) {
 		return "", "repr(bb)"
 	case "exc.syntax":
 		return "", "exc_loc(held)"
+	case "modimpl.conf":
+		return "import ctxconf", "(ctxconf.WORKER, ctxconf.note)"
 	}
 	return "", "None"
 }
@@ -308,6 +313,9 @@ func (Engine) Gen(seed uint64, idx int, tier string) interface{} {
 		locs = append(locs, l)
 	}
 	n := 2 + r.Intn(3)
+	if r.Chance(1, 12) {
+		n = 7 + r.Intn(4) // many contexts (per-context tables indexed or sized by context count)
+	}
 	if tier == "thorough" && r.Chance(1, 3) {
 		n = 4 + r.Intn(4)
 	}
@@ -514,7 +522,15 @@ type uiRec struct{ prints *[]string }
 func (u uiRec) SetPrompt(string) {}
 func (u uiRec) Print(s string)   { *u.prints = append(*u.prints, s) }
 
-func runProgram(src string, code *py.Code, lib string, file string, replBase int) (o ctxOut) {
+// InitConf is the embedder giving a context its own configuration module: the
+// same module name and a body of the same length in every context, different
+// content.
+func InitConf(ctx py.Context, idx int) error {
+	_, err := ctx.ModuleInit(&py.ModuleImpl{Info: py.ModuleInfo{Name: "ctxconf"}, CodeSrc: fmt.Sprintf("WORKER = %d\nnote = \"none\"\n", 100+idx)})
+	return err
+}
+
+func runProgram(idx int, src string, code *py.Code, lib string, file string, replBase int) (o ctxOut) {
 	defer func() {
 		// (runs after the session work below; see the deferred block there)
 	}()
@@ -530,6 +546,10 @@ func runProgram(src string, code *py.Code, lib string, file string, replBase int
 		}
 		o.trace = s.Trace
 	}()
+	if err := InitConf(s.Ctx, idx); err != nil {
+		o.exc = "SETUP:" + err.Error()
+		return o
+	}
 	if replBase >= 0 {
 		defer func() {
 			rp := gprepl.New(s.Ctx)
@@ -606,7 +626,7 @@ func (Engine) Exec(sci interface{}, opt harness.ExecOpts) *harness.Outcome {
 		i := i
 		sim := simrt.New(simrt.Config{MaxSteps: 20000000, Order: sc.Order})
 		lib, _, file := place(i)
-		sim.Spawn("solo", func() { solo[i] = runProgram(srcs[i], shared, lib, file, replBase(sc, i)) })
+		sim.Spawn("solo", func() { solo[i] = runProgram(i, srcs[i], shared, lib, file, replBase(sc, i)) })
 		res := sim.Run()
 		out.Steps += res.Steps
 		if len(res.Panics) > 0 || res.Capped {
@@ -627,7 +647,7 @@ func (Engine) Exec(sci interface{}, opt harness.ExecOpts) *harness.Outcome {
 	for i := range srcs {
 		i := i
 		lib, _, file := place(i)
-		sim.Spawn(fmt.Sprintf("ctx%d", i), func() { inter[i] = runProgram(srcs[i], shared, lib, file, replBase(sc, i)) })
+		sim.Spawn(fmt.Sprintf("ctx%d", i), func() { inter[i] = runProgram(i, srcs[i], shared, lib, file, replBase(sc, i)) })
 	}
 	res := sim.Run()
 	after := fingerprint()
@@ -670,7 +690,7 @@ func (Engine) Exec(sci interface{}, opt harness.ExecOpts) *harness.Outcome {
 			prog = sc.Progs[0]
 		}
 		lib, marker, _ := place(i)
-		want := expectedReads(prog, lib, marker)
+		want := expectedReads(prog, lib, marker, i)
 		if loc, d := checkAgainstModel(solo[i].trace, want); d != "" {
 			out.Violate("context-observes-another-context", "model|solo|"+loc, "context %d, run ALONE (after other contexts of this process had run): %s (program ended with %q)", i, d, solo[i].exc)
 			continue
